@@ -9,7 +9,7 @@ use std::io::Write;
 pub fn run_section(sid: &str, tag: &Value, section: &[u8], out: &mut dyn Write) -> usize {
     let mut n = 0;
     let mut tlvs = TypeLengthValues::from(section);
-    let open = guard(|| json!({"len": tlvs.len(), "empty": tlvs.is_empty(), "bytes_eq": tlvs.as_bytes() == section}))
+    let open = guard(|| json!({"k": "ok", "len": tlvs.len(), "empty": tlvs.is_empty(), "bytes_eq": tlvs.as_bytes() == section}))
         .unwrap_or_else(|p| panic_value(&p));
     writeln!(out, "{}", json!({"fam": "tlv", "sid": sid, "op": "TlvOpen", "tag": tag, "sec": rl(section), "open": open})).unwrap();
     n += 1;
